@@ -17,6 +17,8 @@ Section Grammar.
   Notation follows := (follows T).
   Notation follow_ok := (follow_ok T).
   Notation noabs := (noabs T).
+  (* either literal-literal products exist (old tables), or a literal token triggers implicit_multiply *)
+  Hypothesis Hnn : pt_numnum T || pt_trigger T KNum = true.
 
   Lemma print_cons s : exists t l, print s = t :: l.
   Proof.
@@ -90,15 +92,19 @@ Section Grammar.
   Lemma states : forall s,
       (forall p rest res, W p s -> follows s rest ->
          Run (CLoop p (desugar s)) rest res -> Run (CGen p) (print s ++ rest) res)
-      /\ (capable s = true -> forall rest res, W 0 s ->
+      /\ (capable s = true -> forall rest res, W 0 s -> numjuxt_ok T s (hdk rest) = true ->
             Run (CImpl (desugar s)) rest res -> Run CPrim (print s ++ rest) res).
   Proof.
     induction s as [v| |k|k e IHe|f a IHa|f a b IHa IHb|f args IHargs|e IHe|e IHe|a r IHa IHr
                    |k l r IHl IHr|l IHl|l r IHl IHr|k l IHl|l v IHl] using sx_ind2.
     - (* SNum *) split.
       + intros p rest res _ F HL. simpl. eapply RGen; [|exact HL].
-        apply RPrimNum. eapply impl_no; eauto.
-      + intros _ rest res _ HI. simpl. now apply RPrimNum.
+        apply RPrimNum; [|eapply impl_no; eauto].
+        destruct (pt_numnum T) eqn:En; [reflexivity|]. simpl in Hnn |- *.
+        destruct rest as [|t rest']; [reflexivity|]. simpl in F. destruct F as [_ F]. specialize (F eq_refl).
+        simpl. destruct (kind_eqb (kind_of t) KNum) eqn:Ek; [|reflexivity].
+        apply kind_eqb_eq in Ek. rewrite Ek in F. congruence.
+      + intros _ rest res _ Hj HI. simpl. apply RPrimNum; [exact Hj|exact HI].
     - (* SAns *) split; [|discriminate].
       intros p rest res Wp F HL. simpl in *. eapply RGen; [|exact HL]. now apply RPrimAns.
     - (* SConst *) split; [|discriminate].
@@ -112,7 +118,7 @@ Section Grammar.
         eapply RPrimOpen; [exact Hp|exact Hc|exact Eo| |exact HI].
         apply (proj1 IHe); [exact We|apply delim_follows; exact De|].
         apply loop_stops. simpl. destruct De as [_ ->]. lia. }
-      split; [|intros _; exact B].
+      split; [|intros _ rest res Ws _; now apply B].
       intros p rest res Wp F HL. eapply RGen; [|exact HL].
       apply B; [exact Wp|]. eapply impl_no; eauto.
     - (* SCall1 *)
@@ -122,7 +128,7 @@ Section Grammar.
         eapply RPrimF1; eauto. eapply RArg1; [|exact HI].
         apply (proj1 IHa); [exact Wa|apply delim_follows; exact Da|].
         apply loop_stops. simpl. destruct Da as [_ ->]. lia. }
-      split; [|intros _; exact B].
+      split; [|intros _ rest res Ws _; now apply B].
       intros p rest res Wp F HL. eapply RGen; [|exact HL]. apply B; [exact Wp|]. eapply impl_no; eauto.
     - (* SCall2 *)
       assert (B : forall rest res, W 0 (SCall2 f a b) -> Run (CImpl (desugar (SCall2 f a b))) rest res ->
@@ -135,7 +141,7 @@ Section Grammar.
         - eapply RArg2b; [|exact HI].
           apply (proj1 IHb); [exact Wb|apply delim_follows; exact Db|].
           apply loop_stops. simpl. destruct Db as [_ ->]. lia. }
-      split; [|intros _; exact B].
+      split; [|intros _ rest res Ws _; now apply B].
       intros p rest res Wp F HL. eapply RGen; [|exact HL]. apply B; [exact Wp|]. eapply impl_no; eauto.
     - (* SCallN *)
       assert (B : forall rest res, W 0 (SCallN f args) -> Run (CImpl (desugar (SCallN f args))) rest res ->
@@ -147,7 +153,7 @@ Section Grammar.
         - simpl. rewrite (Hez eq_refl). now apply RItemsEmpty.
         - apply items_complete; auto; try discriminate.
           eapply Forall_impl; [|exact IHargs]. intros s0 [H0 _]. exact H0. }
-      split; [|intros _; exact B].
+      split; [|intros _ rest res Ws _; now apply B].
       intros p rest res Wp F HL. eapply RGen; [|exact HL]. apply B; [exact Wp|]. eapply impl_no; eauto.
     - (* SNeg *) split; [|discriminate].
       intros p rest res [Hn We] F HL. simpl. eapply RGen; [|exact HL].
@@ -168,9 +174,9 @@ Section Grammar.
       + apply loop_stops. destruct rest as [|t rest']; [trivial|]. destruct F as [F1 _]. simpl in F1.
         apply andb_prop in F1. destruct F1 as [F1 _]. now apply Nat.leb_le.
     - (* SJuxt *) split; [|discriminate].
-      intros p rest res (Ca & Wa & St & Wr) F HL. simpl. rewrite <- app_assoc.
+      intros p rest res (Ca & Wa & St & Wr & Hj) F HL. simpl. rewrite <- app_assoc.
       eapply RGen; [|exact HL].
-      apply (proj2 IHa Ca); [exact Wa|].
+      apply (proj2 IHa Ca); [exact Wa|rewrite hdk_print_app; exact Hj|].
       apply RImplYes.
       + rewrite hdk_print_app. exact St.
       + apply (proj1 IHr); [exact Wr| |].
@@ -304,12 +310,12 @@ Section Soundness.
 
   (** a capable primary followed by what implicit_multiply did *)
   Lemma prim_of_impl (a : sx) tail n rest :
-    capable a = true -> (forall p, W p a) -> ImplPost (desugar a) tail (n, rest) ->
+    capable a = true -> (forall p, W p a) -> numjuxt_ok T a (hdk tail) = true -> ImplPost (desugar a) tail (n, rest) ->
     exists s, print a ++ tail = print s ++ rest /\ desugar s = n /\ (forall p, W p s) /\ follows s rest.
   Proof.
-    intros Ca Wa [[-> [-> Ht]]|[sr (-> & -> & Wr & St & Fr & Sr)]].
+    intros Ca Wa Hj [[-> [-> Ht]]|[sr (-> & -> & Wr & St & Fr & Sr)]].
     - exists a. repeat split; auto. apply follows_of_trigger; auto. apply (capable_opn a Ca).
-    - exists (SJuxt a sr). simpl. rewrite app_assoc. repeat split; auto.
+    - exists (SJuxt a sr). simpl. rewrite app_assoc. rewrite hdk_print_app in Hj. repeat split; auto.
       + destruct rest as [|t rest']; simpl in *; [exact Fr|].
         destruct Fr as [F1 F2]. split; [|exact F2]. simpl. rewrite F1.
         apply Nat.leb_le in Sr. now rewrite Sr.
@@ -476,10 +482,11 @@ Section Soundness.
 
   (** accepted exactly the printed forms of well-formed surface trees, with their desugaring *)
   Corollary accepted_iff_wellformed ts n :
+    pt_numnum T || pt_trigger T KNum = true ->
     parse T ph ts = Ok n <->
     exists s, W 0 s /\ (opn s = true -> pt_trigger T KEof = false) /\ print s = ts /\ desugar s = n.
   Proof.
-    split.
+    intros Hnn. split.
     - intros H. destruct (parser_sound _ _ H) as (s & A & B & C & D). eauto.
     - intros (s & A & B & <- & <-). now apply parser_complete.
   Qed.
